@@ -15,7 +15,7 @@ from ..findings import Verdicts
 from ..parallel import pmap
 from .. import tlc as T
 from ..observe import sanitized as S
-from . import c10, c11, colwriter as CW
+from . import c03, c10, c11, c15, colwriter as CW
 
 PID = "C12"
 
@@ -88,6 +88,27 @@ def _run(ev, work, thorough):
     for i in range(0, len(sample), 100):
         jobs.append((root, work, "harness.checks.colwriter:replay_chunk", (i, sample[i:i + 100], os.path.join(work, "cwsan")),
                      "write/read cases", 100))
+    # valid files from "any writer" (Format.tla: the type table and the dictionary-width lattice) and nested columns
+    # (Nested.tla: every page cut) - the decoders are driven by what the FILE says, the sharpest inputs for overruns
+    fcases = []
+    for name in ("E-types", "A-dict-index-widths-and-runs"):
+        cs, fres = c03.export(work, c03.LATTICES[name], "san" + name[0])
+        cs = cs if name.startswith("E") else cs[::(7 if not thorough else 2)]
+        ev.add_tlc("Format sub-lattice %s: layouts for the sanitized reader" % name, fres, layouts=len(cs))
+        fcases.extend(cs)
+    # ASan stops a process at its first report: layouts with a KNOWN overrun (delta pages) run one per process so that
+    # they cannot hide the cases queued behind them
+    risky = [c for c in fcases if c03.case_sig(c)["cause"] == "delta-binary-packed page"]
+    calm = [c for c in fcases if c03.case_sig(c)["cause"] != "delta-binary-packed page"]
+    for i in range(0, len(calm), 150):
+        jobs.append((root, work, "harness.checks.c03:replay_chunk", (i, calm[i:i + 150]), "foreign flat files", 150))
+    for i, c in enumerate(risky):
+        jobs.append((root, work, "harness.checks.c03:replay_chunk", (100000 + i, [c]), "foreign flat files (delta)", 1))
+    lcases, lres = c15.export_lists(work, False)
+    lcases = lcases[::(5 if not thorough else 1)]
+    ev.add_tlc("Nested: list layouts for the sanitized reader", lres, layouts=len(lcases))
+    for i in range(0, len(lcases), 200):
+        jobs.append((root, work, "harness.checks.c15:job", (i, lcases[i:i + 200]), "foreign nested files", 200))
     results = pmap(san_job, jobs, job_timeout=1500)
     seen = {}
     for j, r in zip(jobs, results):
@@ -96,18 +117,31 @@ def _run(ev, work, thorough):
             continue
         ev.evaluations += r["n"]
         reps = S.reports(r["err"], cmap)
+        marks = [ln[7:] for ln in r["err"].splitlines() if ln.startswith("@@case ")]
         for rep in reps:
             key = (rep["tool"], rep["kind"], rep["function"])
             seen[key] = seen.get(key, 0) + 1
-            verd.add({"tool": rep["tool"], "kind": rep["kind"], "function": rep["function"]},
-                     {"input": r["label"], "pyx_line": rep["pyx_line"]})
+            sig = {"tool": rep["tool"], "kind": rep["kind"], "function": rep["function"]}
+            last = None
+            if rep["tool"] == "asan" and marks:
+                # ASan stops the process at its first report: the last case announced is the one that was being read
+                try:
+                    last = json.loads(marks[-1])
+                    if "cause" in last:
+                        sig["layout_cause"] = last["cause"]
+                    if "nested" in last:
+                        sig["layout_cause"] = "nested column, version-%d pages%s" % (
+                            last["version"], ", row continued on the next page" if last.get("cut_inside_row") else "")
+                except ValueError:
+                    pass
+            verd.add(sig, {"input": r["label"], "pyx_line": rep["pyx_line"], "case": last})
         if r["rc"] != 0 and not reps:
             verd.add({"tool": "process", "kind": "exit status %s without a sanitizer report" % r["rc"],
                       "input": r["label"].split()[0]}, {"stderr_tail": r["err"][-1500:]})
         ev.nontrivial.add((r["label"], j[3][0] if isinstance(j[3], tuple) and j[3] and isinstance(j[3][0], int) else repr(j[3])[:40]))
     ev.extra["distinct_reports"] = {"%s|%s|%s" % k: v for k, v in seen.items()}
     ev.extra["inputs"] = {"codec_vectors": len(vectors), "thrift_shapes": len(shapes), "metadata_sizes": len(sizes),
-                          "write_read_cases": len(sample)}
+                          "write_read_cases": len(sample), "foreign_flat_layouts": len(fcases), "foreign_nested_layouts": len(lcases)}
     ev.rule = ("every input of the systematic spaces (TLC-computed codec vectors, IDL value shapes, buffer-model size points, "
                "sampled write/read cases) executed once under ASan+UBSan in batches; non-trivial = distinct batches executed")
     ev.sample({"input": "codec vectors", "example": {k: vectors[0][k] for k in vectors[0] if k != "values"}})
